@@ -8,6 +8,7 @@ import PlatypusModel.Model.Sorting
 import PlatypusModel.Model.Grid
 import PlatypusModel.Model.Run
 import PlatypusModel.Model.Survival
+import PlatypusModel.Model.Machine
 open Wire Platypus
 
 namespace Ops
@@ -241,8 +242,82 @@ def opsSurvival (op : String) : Option (P String) :=
       pure ("v " ++ showNats (gde3Survival c dirs off pop n))
   | _ => none
 
+def vtype : P VType := do
+  match (← tok) with
+  | "r" => do let lo ← flt; let hi ← flt; pure (.real lo hi)
+  | "i" => do let lo ← int; let hi ← int; pure (.int lo hi)
+  | "b" => do let n ← nat; pure (.binary n)
+  | "p" => do let n ← nat; pure (.perm n)
+  | "s" => do let n ← nat; let k ← nat; pure (.subset n k)
+  | _ => throw "bad-op"
+
+/-- one decoded variable; "X" = undecodable / wrong shape -/
+def valOf (t : VType) : P Val := do
+  let st ← get
+  match st with
+  | "X" :: ts => set ts; pure Val.bad
+  | _ =>
+    match t with
+    | .real _ _ => do let b ← nat; pure (.real b)
+    | .int _ _ => do let v ← int; pure (.int v)
+    | .binary _ => do let b ← bits; pure (.bits b)
+    | .perm _ => do let e ← list nat; pure (.elems e)
+    | .subset _ _ => do let e ← list nat; pure (.elems e)
+
+def snapOf (types : List VType) : P Snap := do
+  let id ← nat; let ev ← bool; let hf ← bool; let fe ← bool; let cv ← nat
+  let objs ← list nat; let cons ← list nat
+  let nv ← nat
+  let vals ← if nv == types.length then types.mapM valOf else (List.range nv).mapM (fun _ => do let _ ← tok; pure Val.bad)
+  pure { id := id, vals := vals, record := { objs := objs, cons := cons, cv := cv, feasible := fe }, hasFeasible := hf, evaluated := ev }
+
+def eventOf (types : List VType) : P Event := do
+  match (← tok) with
+  | "B" => do
+      let m ← nat
+      let before ← (List.range m).mapM (fun _ => snapOf types)
+      let after ← (List.range m).mapM (fun _ => snapOf types)
+      pure (.batch before after)
+  | "S" => do let ex ← list (snapOf types); pure (.step ex)
+  | _ => throw "bad-op"
+
+def worldOf : P World := do
+  let types ← list vtype
+  let quad ← bool
+  let w ← list (list int)
+  let cw ← list (do let r ← list int; let t ← flt; pure (r, t))
+  let cons ← list (do let o ← opTok; let y ← flt; pure (o, y))
+  let delta ← flt
+  pure { types := types, call := weightedCall quad w cw cons delta }
+
+def firstReject (w : World) : List Event → Known → Nat → String
+  | [], _, _ => "ok"
+  | .batch b a :: rest, k, i =>
+    match checkBatch w b a k with
+    | .error e => s!"reject {repr e} {i}"
+    | .ok k' => firstReject w rest k' (i + 1)
+  | .step ex :: rest, k, i =>
+    match checkExposed k ex with
+    | .error e => s!"reject {repr e} {i}"
+    | .ok _ => firstReject w rest k (i + 1)
+
+def opsMachine (op : String) : Option (P String) :=
+  match op with
+  | "machine" => some do
+      let w ← worldOf
+      let evs ← list (eventOf w.types)
+      match accept w evs with
+      | .ok _ => pure "ok"
+      | .error _ => pure (firstReject w evs [] 0)
+  | "pcall" => some do      -- model of Problem.__call__ on one decoded argument
+      let w ← worldOf
+      let vals ← w.types.mapM valOf
+      let r := w.call vals
+      pure s!"{showList toString r.objs} {showList toString r.cons} {r.cv} {if r.feasible then 1 else 0} {if validVals w.types vals then 1 else 0}"
+  | _ => none
+
 def dispatch (op : String) (args : List String) : Except String String :=
-  match (opsGray op <|> opsDominance op <|> opsConstraint op <|> opsEps op <|> opsSorting op <|> opsGrid op <|> opsRun op <|> opsSurvival op) with
+  match (opsGray op <|> opsDominance op <|> opsConstraint op <|> opsEps op <|> opsSorting op <|> opsGrid op <|> opsRun op <|> opsSurvival op <|> opsMachine op) with
   | some p => Wire.run p args
   | none => .error "bad-op"
 
